@@ -20,11 +20,14 @@ nothing, or the one bin that contains s (start <= s < end).
 Signatures: contract + kind of input.  kind "recorded-binsize-untrue" = the table is stored with a fixed bin size b
 although not every bin is [k*b, min((k+1)*b, len)) (property C20 / get_binsize; the fast path then does arithmetic
 on a wrong size);  kind "empty-range-at-chromosome-end" = the empty range (c, len, len).  Everything else has the
-bare contract name.  The checks are NOT weakened for these kinds.
+bare contract name; an unexpected exception inside a library call appends ":exception".  The checks are NOT
+weakened for these kinds.  `--replay <file>` re-runs the bin table of a recorded case and reports whether that case
+still violates its contract.
 """
 import sys, os
 sys.path.insert(0, os.path.dirname(os.path.dirname(os.path.abspath(__file__))))
 import contextlib
+import hashlib
 import itertools
 import json
 import shutil
@@ -44,18 +47,41 @@ K_END = "empty-range-at-chromosome-end"
 
 
 class CappedBounded(Bounded):
-    """Record at most `per_sig` violations per signature, so that one (known) failure class cannot use up the
-    violation slots and hide a different one.  Every failure is still counted."""
+    """Bounded + (1) at most `per_sig` recorded violations per signature, so that one (known) failure class cannot use
+    up the violation slots and hide a different one (every failure is still counted, see failures_by_signature);
+    (2) compact digests for the distinct-case count; (3) --replay support (see replay())."""
 
     def __init__(self, *a, **k):
         super().__init__(*a, **k)
         self.max_violations = 60
         self.per_sig = 2
         self.sig_count = {}
+        self.fail_keys = set()
+        self.replayed = None
+
+    @staticmethod
+    def key(contract, case):
+        return json.dumps([contract, case], sort_keys=True, default=str)
+
+    def ok(self, contract, case, nontrivial=True, sample=False):
+        # as Bounded.ok, but keeps 8-byte digests (the thorough tier records millions of distinct cases)
+        self.evaluations += 1
+        self.contracts[contract] = self.contracts.get(contract, 0) + 1
+        if nontrivial:
+            self.nontrivial.add(int.from_bytes(hashlib.md5(repr((contract, case)).encode()).digest()[:8], "big"))
+        if sample or (len(self.samples) < 6 and self.contracts[contract] in (1, 50)):
+            self.samples.append({"contract": contract, "case": json.dumps(case, default=str)[:400]})
 
     def fail(self, contract, case, observed, expected, signature=None):
         sig = signature or contract
         self.sig_count[sig] = self.sig_count.get(sig, 0) + 1
+        if self.replay_file:  # replaying: nothing is written, the outcome of the replayed case is reported by finish()
+            self.evaluations += 1
+            self.contracts[contract] = self.contracts.get(contract, 0) + 1
+            self.fail_keys.add(self.key(contract, case))
+            if self.replayed and self.key(contract, case) == self.replayed["key"]:
+                self.replayed.update(observed=json.dumps(observed, default=str)[:1500], signature=sig)
+            return
         if self.sig_count[sig] > self.per_sig:
             self.evaluations += 1
             self.contracts[contract] = self.contracts.get(contract, 0) + 1
@@ -69,8 +95,22 @@ class CappedBounded(Bounded):
                "exhaustive": self.exhaustive, "samples": self.samples[:8], "violations": self.violations,
                "failures_by_signature": self.sig_count,
                "contracts_evaluated": self.contracts, "wall_s": round(time.time() - self.t0, 2)}
+        if self.replayed is not None:
+            r = self.replayed
+            out["replay"] = {"file": self.replay_file, "contract": r["contract"], "case": r["case"],
+                             "reproduced": r["key"] in self.fail_keys, "observed_now": r.get("observed"),
+                             "signature_now": r.get("signature"), "expected": r.get("expected")}
+            print("REPLAY %s: %s  case=%s\n  observed now: %s\n  expected: %s" % (
+                "REPRODUCED (contract violated)" if out["replay"]["reproduced"] else "not reproduced (contract holds on this case now)",
+                r["contract"], json.dumps(r["case"], default=str)[:600], r.get("observed"), r.get("expected")))
         print(json.dumps(out, default=str))
         return 0
+
+    def load_replay(self):
+        rec = json.load(open(self.replay_file))
+        self.replayed = {"contract": rec["contract"], "case": rec["case"], "key": self.key(rec["contract"], rec["case"]),
+                         "expected": rec.get("expected")}
+        return rec["contract"], rec["case"]
 
 
 def sig(contract, kind):
@@ -200,7 +240,7 @@ def layer_A(B, tab, family):
     for ci, s, e in tab.cases():
         c = tab.names[ci]
         at_end = s == e == tab.clen[c]
-        contract = "region_to_extent==overlapping-bins" if s < e else "region_to_extent:empty-range<=containing-bin"
+        contract = "region_to_extent==overlapping-bins" if s < e else "region_to_extent-empty-range-selects-at-most-containing-bin"
         for pname, b, untrue in paths:
             kind = K_UNTRUE if untrue else (K_END if at_end else "")
             case = dict(tcase, region=[c, s, e], binsize=None if b is None else int(b), path=pname)
@@ -286,7 +326,7 @@ def frame_obs(df):
 def layer_G(B, tab, family):
     bins = tab.frame()
     cs = pd.Series(tab.clen)
-    tcase = dict(layer="G", family=family, bins=tab.spec())
+    tcase = dict(layer="G", family=family, table=tab.name, bins=tab.spec())
     gs = B.guarded("GenomeSegmentation.fetch==overlapping-rows", tcase, lambda: util.GenomeSegmentation(cs, bins))
     grouped = bins.groupby("chrom", observed=True)
     nt = tab.n > 1
@@ -307,7 +347,7 @@ def layer_G(B, tab, family):
 
 def layer_parse_region(B, tab):
     cs = pd.Series(tab.clen)
-    tcase = dict(layer="parse_region", chromsizes=tab.clen)
+    tcase = dict(layer="parse_region", table=tab.name, chromsizes=tab.clen)
 
     def run(reg, sizes, expect, case):
         try:
@@ -317,7 +357,7 @@ def layer_parse_region(B, tab):
         except Exception as ex:  # any other exception type is outside the contract
             got, exc = None, type(ex).__name__ + ": " + str(ex)
         if expect is None:
-            B.check("parse_region:ValueError-for-unknown-or-out-of-bounds", exc == "ValueError", case,
+            B.check("parse_region-raises-ValueError-iff-unknown-or-out-of-bounds", exc == "ValueError", case,
                     exc or repr(got), "ValueError")
         else:
             ok = exc is None and tuple(got) == expect and all(isinstance(x, (int, np.integer)) for x in got[1:])
@@ -382,9 +422,9 @@ def layer_B(B, tab, tidx, path, all_pairs=False):
     F = full_matrix(pix, n, symm)
     P1, P2, PC = pix["bin1_id"].tolist(), pix["bin2_id"].tolist(), pix["count"].tolist()
     use_handle = tidx % 2 == 1
-    tcase = dict(layer="B", table=tab.name, bins=tab.spec(), symmetric_upper=symm,
+    tcase = dict(layer="B", table=tab.name, tidx=tidx, bins=tab.spec(), symmetric_upper=symm,
                  pixels="count[i,j]=1+i*n+j" + (", row/col 1 empty" if knock else ""),
-                 store="open h5py handle" if use_handle else "path", same_path_rewritten=tidx > 0)
+                 store="open h5py handle" if use_handle else "path", same_path_rewritten=tidx > 0, all_pairs=all_pairs)
     if B.guarded("create_cooler-does-not-raise", tcase, lambda: make_cooler(path, bins, pix, symm)) is None:
         return
     nt = n > 1
@@ -411,7 +451,7 @@ def layer_B(B, tab, tidx, path, all_pairs=False):
             c = tab.names[ci]
             L = tab.clen[c]
             kind = K_UNTRUE if untrue else (K_END if s == e == L else "")
-            contract = "Cooler.extent==overlapping-bins" if s < e else "Cooler.extent:empty-range<=containing-bin"
+            contract = "Cooler.extent==overlapping-bins" if s < e else "Cooler.extent-empty-range-selects-at-most-containing-bin"
             for fname, reg in region_forms(c, s, e, L):
                 case = dict(tcase, region=[c, s, e], form=fname, given=repr(reg))
                 got = B.guarded(contract, case, lambda: clr.extent(reg), sig(contract, kind) + ':exception')
@@ -483,7 +523,7 @@ def layer_B(B, tab, tidx, path, all_pairs=False):
                 reg1 = (c, s, e) if pj % 2 == 0 else f"{c}:{s}-{e}"
                 reg2 = f"{c2}:{s2}-{e2}" if pj % 3 == 0 else (c2, s2, e2)
                 case = dict(tcase, region=[c, s, e], region2=[c2, s2, e2], given=[repr(reg1), repr(reg2)])
-                contract = "matrix.fetch(r1,r2)==block-of-overlapping-bins"
+                contract = "matrix.fetch2==block-of-overlapping-bins"
                 got = B.guarded(contract, case, lambda: sel_m.fetch(reg1, reg2), sig(contract, kind2) + ':exception')
                 if got is None:
                     continue
@@ -494,7 +534,7 @@ def layer_B(B, tab, tidx, path, all_pairs=False):
                 x1, x2 = lib_ext.get((ci, s, e)), lib_ext.get((cj, s2, e2))
                 if (all_pairs or thorough or idx % 3 == tidx % 3) and x1 and x2 and tab.extent_ok(ci, s, e, *x1) \
                         and tab.extent_ok(cj, s2, e2, *x2):
-                    contract = "matrix.fetch(r1,r2)==index-slice-on-extents"
+                    contract = "matrix.fetch2==index-slice-on-extents"
                     ref = B.guarded(contract, case, lambda: sel_m[x1[0]:x1[1], x2[0]:x2[1]])
                     if ref is not None:
                         B.check(contract, ref.shape == got.shape and np.array_equal(ref, got), case, got.tolist(),
@@ -575,8 +615,58 @@ def scaled_tables():
     return out
 
 
+def find_table(case):
+    """the table of a recorded case: by name among the fixed tables, else rebuilt from the recorded bins"""
+    name = case.get("table")
+    for t in named_tables(True) + tiny_tables() + scaled_tables():
+        if t.name == name and ("bins" not in case or t.spec() == case["bins"]):
+            return t
+    chroms = [(c, e) for c, e in case["bins"]] if "bins" in case else [(c, [0, L]) for c, L in case["chromsizes"].items()]
+    pos = None
+    if max(e[-1] for _, e in chroms) > 64:  # sampled genome-scale table: the recorded coordinates and the edges +-1
+        regs = [case[k] for k in ("region", "region2") if k in case]
+        pos = {}
+        for c, e in chroms:
+            P = set()
+            for x in e:
+                P.update(y for y in (x - 1, x, x + 1) if 0 <= y <= e[-1])
+            for r in regs:
+                if r[0] == c:
+                    P.update(v for v in r[1:] if v is not None and 0 <= v <= e[-1])
+            pos[c] = P
+    return Tab(name or "replay", chroms, pos)
+
+
+def replay(B):
+    """./check C04 --replay <file>: re-run the table of the recorded case and report whether that case still fails"""
+    contract, case = B.load_replay()
+    B.tier = "thorough"  # evaluate every contract on every case of the table
+    tab = find_table(case)
+    layer = case.get("layer")
+    if layer == "A":
+        layer_A(B, tab, case.get("family"))
+    elif layer == "G":
+        layer_G(B, tab, case.get("family"))
+    elif layer == "parse_region":
+        layer_parse_region(B, tab)
+    elif layer == "B":
+        path = B.path("c04.cool")
+        if case.get("same_path_rewritten"):
+            # in the recorded run other tables had been written to and queried at this very path before
+            warm = Tab("warm-up", [("w1", [0, 2, 4, 5]), ("w2", [0, 1])])
+            make_cooler(path, warm.frame(), pixels_from_dense(np.ones((warm.n, warm.n), dtype=np.int64), True), True)
+            c = cooler.Cooler(path)
+            for x in ("w1", "w2"):
+                c.extent(x), c.bins().fetch(x), c.pixels().fetch(x), c.matrix(balance=False).fetch(x)
+        layer_B(B, tab, case["tidx"], path, all_pairs=case.get("all_pairs", False))
+    B.bound = "replay of one recorded case (all cases of its bin table are re-run)"
+    return B.finish()
+
+
 def main():
     B = CappedBounded("C04", "bounded/C04.py")
+    if B.replay_file:
+        return replay(B)
     th = B.thorough
     # ---- A
     nA = 0
